@@ -75,7 +75,8 @@ def apply_overlay(repo, unit, tier, seed=0):
     return applied
 
 
-CHECK_RE = re.compile(r"^Check (\d+): (.+)\n\t - Status: (\w+)\n\t - Description: \"(.*)\"\n\t - Location: (.*)$", re.M)
+# (the description is the stringified assertion: long expressions are pretty-printed over several lines)
+CHECK_RE = re.compile(r"^Check (\d+): (.+)\n\t - Status: (\w+)\n\t - Description: \"((?:.|\n)*?)\"\n\t - Location: (.*)$", re.M)
 
 
 def parse_harness_output(text):
@@ -83,7 +84,7 @@ def parse_harness_output(text):
     checks = []
     for m in CHECK_RE.finditer(text):
         checks.append({"n": int(m.group(1)), "id": m.group(2), "status": m.group(3),
-                       "description": m.group(4), "location": m.group(5)})
+                       "description": re.sub(r"\s*\n\s*", " ", m.group(4)), "location": m.group(5)})
     res = {"n_checks": len(checks), "checks": checks}
     m = re.search(r"Verification Time: ([0-9.]+)s", text)
     res["time_s"] = float(m.group(1)) if m else None
